@@ -59,6 +59,9 @@ func (s *Sched) Done(kind, id string) {
 		s.done["esdone:"+id]++
 	case "esq", "esl":
 		s.done["esdone:"+id]++
+		if kind == "esq" {
+			s.done["esqdone:"+id]++
+		}
 	default:
 		s.done[kind+":"+id]++
 	}
